@@ -235,7 +235,74 @@ theorem flat_list_every_downstream (h : Fam c A B T q fs) (hs : SvcFam c A B T q
     (by intro s hs; simp only [List.mem_singleton] at hs; subst hs; exact Or.inl rfl) res hg cl hcl rq hrq
   exact requestOK_of_cases h hs svcs hsA hsB _ _ _ (flat_request_cases h _ _ _ this)
 
+/-- a batch all of whose requests are valid passes the validating front -/
+theorem guardValid_of_valid (svcs : List Svc) (down : Downstream) (url : String) (batch : List Request)
+    (h : ∀ rq ∈ batch, ValidFor (schemaAt svcs url) rq = true) : guardValid svcs down url batch = down url batch := by
+  have : batch.all (fun rq => ValidFor (schemaAt svcs url) rq) = true := List.all_eq_true.mpr h
+  simp [guardValid, this]
+
+/-- **one object: no invalid request is ever handed to a service** — putting a validating front
+    before the downstream changes nothing, whatever the downstream does and however the run ends -/
+theorem flat_guarded (h : Fam c A B T q fs) (hs : SvcFam c A B T q fs SA SB) (svcs : List Svc)
+    (hsA : svcs.find? (·.url == A) = some ⟨A, SA⟩) (hsB : svcs.find? (·.url == B) = some ⟨B, SB⟩)
+    (down : Downstream) :
+    gateway c {} ⟨.query, "", [], [Q T q fs]⟩ none (guardValid svcs down)
+      = gateway c {} ⟨.query, "", [], [Q T q fs]⟩ none down := by
+  rw [gateway_noVarDefs _ _ _ _ _ _ rfl, gateway_noVarDefs _ _ _ _ _ _ rfl]
+  have hplan : plan c ⟨.query, "", [], [Q T q fs]⟩
+      = .ok ([.mk A "Query" [rootSel q (.named T) (Flat.fsA fs)] [] (stepsB B T q (Flat.fsB fs))], [([q], [(T, ["id"])])]) := by
+    unfold plan
+    simp only [stage_sanitize h, bind, Except.bind, stage_plan h]
+    rfl
+  refine gatewayCore_congr c {} none _ (FlatReq A B T q (.named T) fs) (flatReq_closed A B T q _ fs) down ?_ _ id _ _ hplan
+    (by intro s hs; simp only [List.mem_singleton] at hs; subst hs; exact Or.inl rfl)
+  intro url batch hb
+  exact guardValid_of_valid svcs down url batch
+    (fun rq hrq => (requestOK_of_cases h hs svcs hsA hsB _ _ _ (flat_request_cases h _ _ _ (hb rq hrq))).valid)
+
+/-- **a list of objects: no invalid request is ever handed to a service** -/
+theorem flat_list_guarded (h : Fam c A B T q fs) (hs : SvcFam c A B T q fs SA SB) (svcs : List Svc)
+    (hsA : svcs.find? (·.url == A) = some ⟨A, SA⟩) (hsB : svcs.find? (·.url == B) = some ⟨B, SB⟩)
+    (down : Downstream) :
+    gateway c {} ⟨.query, "", [], [FlatList.QL T q fs]⟩ none (guardValid svcs down)
+      = gateway c {} ⟨.query, "", [], [FlatList.QL T q fs]⟩ none down := by
+  rw [gateway_noVarDefs _ _ _ _ _ _ rfl, gateway_noVarDefs _ _ _ _ _ _ rfl]
+  have hplan : plan c ⟨.query, "", [], [FlatList.QL T q fs]⟩
+      = .ok ([.mk A "Query" [rootSel q (.list (.named T)) (Flat.fsA fs)] [] (stepsB B T q (Flat.fsB fs))],
+             [([q], [(T, ["id"])])]) := by
+    unfold plan
+    simp only [FlatList.stage_sanitize h, bind, Except.bind, FlatList.stage_plan h]
+    rfl
+  refine gatewayCore_congr c {} none _ (FlatReq A B T q (.list (.named T)) fs) (flatReq_closed A B T q _ fs) down ?_ _ id
+    _ _ hplan (by intro s hs; simp only [List.mem_singleton] at hs; subst hs; exact Or.inl rfl)
+  intro url batch hb
+  exact guardValid_of_valid svcs down url batch
+    (fun rq hrq => (requestOK_of_cases h hs svcs hsA hsB _ _ _ (flat_request_cases h _ _ _ (hb rq hrq))).valid)
+
 /-! ### mutations -/
+
+/-- the execution requests of the plan of a flat mutation: the root steps -/
+def MutReq (c : PCtx) (ms : List Mut.MSpec) (er : ExecReq) : Prop :=
+  ∃ u ∈ Mut.activeUrls c ms, er = ⟨Mut.stepOf ms u, []⟩
+
+theorem mutReq_closed (c : PCtx) (ms : List Mut.MSpec) :
+    ∀ er, MutReq c ms er → ∀ resp qr next, parseOne er resp = .ok (qr, next) → ∀ e ∈ next, MutReq c ms e := by
+  intro er ⟨u, _, hu⟩ resp qr next hpo e he
+  have := parseOne_next er resp qr next hpo e he
+  rw [hu] at this
+  simp [Mut.stepOf, Step.thn] at this
+
+theorem mut_fromReq_ok {c : PCtx} {ms : List Mut.MSpec} {svcs : List Svc} (h : Mut.Fam c ms)
+    (hs : Mut.SvcFam c ms svcs) (url : String) (rq : Request) (hrq : FromReq c none (MutReq c ms) url rq) :
+    ValidFor (schemaAt svcs url) rq = true ∧ rq.header.kind = .mutation ∧ rq.header.varDecls = [] ∧ rq.vars = [] := by
+  obtain ⟨er, vars, ⟨u, hu, rfl⟩, hurl, hv, rfl⟩ := hrq
+  have hvars := getVariables_root c _ vars hv
+  subst hvars
+  have hurl' : url = u := hurl.symm
+  have hmem : (⟨u, [Mut.reqOf c ms u]⟩ : Call) ∈ Mut.callsOf c ms := List.mem_map.mpr ⟨u, hu, rfl⟩
+  have := mut_calls_ok h hs _ hmem (Mut.reqOf c ms u) (by simp)
+  rw [hurl']
+  exact this
 
 /-- **flat mutations, EVERY downstream** (also one that faults or answers with the wrong number of
     objects: then the model reports the error and records no calls) -/
@@ -246,26 +313,25 @@ theorem mut_every_downstream {c : PCtx} {ms : List Mut.MSpec} {svcs : List Svc} 
       ValidFor (schemaAt svcs cl.url) rq = true ∧ rq.header.kind = .mutation ∧ rq.header.varDecls = [] ∧ rq.vars = [] := by
   rw [gateway_noVarDefs _ _ _ _ _ _ rfl] at hg
   intro cl hcl rq hrq
-  have := gatewayCore_calls_from_reqs c {} none down
-    (fun er => ∃ u ∈ Mut.activeUrls c ms, er = ⟨Mut.stepOf ms u, []⟩)
-    (by
-      intro er ⟨u, _, hu⟩ resp qr next hpo e he
-      have := parseOne_next er resp qr next hpo e he
-      rw [hu] at this
-      simp [Mut.stepOf, Step.thn] at this)
+  exact mut_fromReq_ok h hs _ _ (gatewayCore_calls_from_reqs c {} none down (MutReq c ms) (mutReq_closed c ms)
     _ id _ _ (Mut.stage_plan' h)
     (by
       intro s hs
       obtain ⟨u, hu, rfl⟩ := List.mem_map.mp hs
       exact ⟨u, hu, rfl⟩)
-    res hg cl hcl rq hrq
-  obtain ⟨er, vars, ⟨u, hu, rfl⟩, hurl, hv, rfl⟩ := this
-  have hvars := getVariables_root c _ vars hv
-  subst hvars
-  have hurl' : cl.url = u := hurl.symm
-  have hmem : (⟨u, [Mut.reqOf c ms u]⟩ : Call) ∈ Mut.callsOf c ms := List.mem_map.mpr ⟨u, hu, rfl⟩
-  have := mut_calls_ok h hs _ hmem (Mut.reqOf c ms u) (by simp)
-  rw [hurl']
-  exact this
+    res hg cl hcl rq hrq)
+
+/-- **flat mutations: no invalid request is ever handed to a service** -/
+theorem mut_guarded {c : PCtx} {ms : List Mut.MSpec} {svcs : List Svc} (h : Mut.Fam c ms)
+    (hs : Mut.SvcFam c ms svcs) (down : Downstream) :
+    gateway c {} (Mut.op c ms) none (guardValid svcs down) = gateway c {} (Mut.op c ms) none down := by
+  rw [gateway_noVarDefs _ _ _ _ _ _ rfl, gateway_noVarDefs _ _ _ _ _ _ rfl]
+  refine gatewayCore_congr c {} none _ (MutReq c ms) (mutReq_closed c ms) down ?_ _ id _ _ (Mut.stage_plan' h)
+    (by
+      intro s hs
+      obtain ⟨u, hu, rfl⟩ := List.mem_map.mp hs
+      exact ⟨u, hu, rfl⟩)
+  intro url batch hb
+  exact guardValid_of_valid svcs down url batch (fun rq hrq => (mut_fromReq_ok h hs url rq (hb rq hrq)).1)
 
 end PebblesVerif.C02
